@@ -199,6 +199,10 @@ class C09(PropBase):
             same.append({"k": "ref", "m": m["name"], "n": "VwSame"})
         # the bare None annotation is not a type object (NoneType is); C15 covers it
         roots = [t for t in gen.root_types(view, rng, cfg, rng.randint(1, 4)) if t["k"] != "none"] or [{"k": "int"}]
+        if rng.random() < 0.3:
+            # mutually recursive type aliases (lazily evaluated `type` statements), None declared first
+            world["modules"][0]["decls"].append({"d": "raw", "n": "VwRA", "src": "type VwRA = None | int | VwRB\ntype VwRB = None | str | VwRA\ntype VwRC = list[VwRC] | int\n"})
+            roots.append({"k": "raw", "src": rng.choice(["vw0.VwRA", "vw0.VwRB", "list[vw0.VwRA]", "vw0.VwRC", "dict[str, vw0.VwRB]"])})
         steps = []
         n = rng.randint(1, 12 if tier == "quick" else 30)
         graphs = []
